@@ -12,6 +12,7 @@ struct CaseIn {
     wasm: Vec<u8>,
     preserve_ct: bool,
     loc_mod: bool,
+    shared_locals: bool,
     gc: bool,
     expected: Result<Vec<u8>, ()>,
 }
@@ -33,7 +34,7 @@ fn read_cases(p: &str) -> Vec<CaseIn> {
         let ok = b[i + 1];
         i += 2;
         let exp = rd(&mut i);
-        v.push(CaseIn { wasm, preserve_ct: flags & 1 != 0, gc: flags & 2 != 0, loc_mod: flags & 4 != 0, expected: if ok == 1 { Ok(exp) } else { Err(()) } });
+        v.push(CaseIn { wasm, preserve_ct: flags & 1 != 0, gc: flags & 2 != 0, loc_mod: flags & 4 != 0, shared_locals: flags & 8 != 0, expected: if ok == 1 { Ok(exp) } else { Err(()) } });
     }
     v
 }
@@ -66,9 +67,43 @@ impl walrus::CustomSection for CtDump {
     }
 }
 
+
+/// two pairs of builder-made functions that share a `LocalId`: a parameter of the first, a plain
+/// local of the second (module-level locals can be used that way); each pair is adjacent in the
+/// size order walrus emits functions in, the parameter user first
+fn add_functions_sharing_locals(m: &mut walrus::Module) {
+    use walrus::{FunctionBuilder, ValType};
+    for (k, pairs) in [6i32, 2].iter().enumerate() {
+        let l = m.locals.add(ValType::I32);
+        let mut b1 = FunctionBuilder::new(&mut m.types, &[ValType::I32], &[ValType::I32]);
+        {
+            let mut body = b1.func_body();
+            for j in 0..*pairs {
+                body.i32_const(9000 + j).drop();
+            }
+            body.local_get(l);
+        }
+        let f1 = b1.finish(vec![l], &mut m.funcs);
+        let mut b2 = FunctionBuilder::new(&mut m.types, &[], &[ValType::I32]);
+        {
+            let mut body = b2.func_body();
+            for j in 0..(*pairs - 2) {
+                body.i32_const(9100 + j).drop();
+            }
+            body.i32_const(5).local_set(l).local_get(l);
+        }
+        let f2 = b2.finish(vec![], &mut m.funcs);
+        m.exports.add(&format!("shared_param_{}", k), f1);
+        m.exports.add(&format!("shared_local_{}", k), f2);
+    }
+}
+
 fn walrus_run(c: &CaseIn) -> Result<Vec<u8>, String> {
     let mut cfg = walrus::ModuleConfig::new();
     cfg.preserve_code_transform(c.preserve_ct);
+    if c.shared_locals {
+        cfg.generate_name_section(false);
+    }
     if c.loc_mod {
         cfg.on_instr_loc(|pos| walrus::InstrLocId::new((*pos % 7) as u32));
     }
@@ -76,6 +111,9 @@ fn walrus_run(c: &CaseIn) -> Result<Vec<u8>, String> {
         let mut m = cfg.parse(&c.wasm).map_err(|e| format!("{:#}", e))?;
         if c.preserve_ct {
             m.customs.add(CtDump::default());
+        }
+        if c.shared_locals {
+            add_functions_sharing_locals(&mut m);
         }
         if c.gc {
             walrus::passes::gc::run(&mut m);
